@@ -64,7 +64,10 @@ PROP = dict(
          "isolated vertices, complete, cycle, tiny/edgeless/empty) x 3 edge-weight ranges x 7 partition families (balanced, "
          "random, unbalanced 1-2 vertices on a side, contiguous halves, locally optimal for single moves, alternating, "
          "one-sided) x 4 id pairs ((0,1),(1,0),(3,7),(5,2)) x max_passes/max_flips_per_pass in {None,0,1,2,3} x "
-         "max_bad_move_in_a_row 0..3; plus a malformed stream (8%: weights shorter/longer than the partition, partition "
+         "max_bad_move_in_a_row 0..3; each graph run on one of three topology types: sprs CsMatView (60%, its own edge_cut override), "
+         "harness-side adjacency lists with shuffled neighbour order (20%) and coupe::Grid 2-D / 3-D (20%, neighbour order "
+         "x-1,x+1,y-1,y+1,..: not sorted) -- the last two use the trait's provided edge_cut and the model's generic cut; "
+         "plus a malformed stream (8%: weights shorter/longer than the partition, partition "
          "longer/shorter than the matrix, a directed edge or self-loop) and a known-finding stream (4%: more than two distinct "
          "ids); distinct = distinct (graph, weights length, partition, limits); non-trivial = contract stream, >= 4 vertices, "
          "two parts in use, at least one pass and one flip allowed",
